@@ -375,8 +375,6 @@ def run(ctx):
         log("BUILD FAILED (harness nodesim):\n" + out[-3000:])
         raise SystemExit(2)
     vlib.regen_consts(GROUP, BIN)
-    # bounded build first (a diverging proof must not hold the shared build lock for long)
-    vlib.coq_make(["Valid/Proofs.vo", "Valid/BatchProofs.vo"], timeout=900)
     proofs_ok, info = ctx.check_proofs(make_targets=["Valid/Proofs.vo", "Valid/BatchProofs.vo", "Properties/C11.vo"],
                                        gate_paths=["Valid", "Common", "Properties/C11"])
     mok, mout, _ = vlib.model_build(GROUP)
@@ -407,11 +405,17 @@ def run(ctx):
         for i, p in enumerate(sorted(glob.glob(os.path.join(vlib.VERIF, "corpus", "C11", "*.tsv")))):
             pol = " -policy wait_compact" if os.path.basename(p).startswith("wc-") else ""
             jobs.append(("corpus-" + os.path.basename(p)[:-4], "-replay %s -port %d%s" % (p, pbase + 3 * len(jobs), pol)))
-        nproc, n = (4, 3000) if quick else (12, 20000)
+        nproc, n = (4, 2500) if quick else (12, 20000)
         for i in range(nproc):
             eng = "mem" if (quick or i % 3 != 2) else "pebble"
             pol = "wait_compact" if i % 2 == 1 else "local_deletion"
-            jobs.append(("fresh-%d" % i, "-seed %d -n %d -engine %s -policy %s -port %d%s%s" % (ctx.seed * 1000 + i, n, eng, pol, pbase + 3 * len(jobs), " -big" if i == 0 else "", " -v2" if i % 4 == 3 else "")))
+            jobs.append(("fresh-%d" % i, "-seed %d -n %d -engine %s -policy %s -port %d%s" % (ctx.seed * 1000 + i, n, eng, pol, pbase + 3 * len(jobs), " -v2" if i % 4 == 3 else "")))
+        # the deterministic blocks (one valid run of every template, dictionary of matched texts, MAX_BATCH_NUM classes on
+        # live collections, > 100 large collections, big-list trim and regrow, pipelined groups) in a job of their own
+        jobs.append(("big-a", "-seed %d -n 1 -big -bigpart a -engine mem -policy local_deletion -port %d" % (ctx.seed, pbase + 3 * len(jobs))))
+        jobs.append(("big-b", "-seed %d -n 1 -big -bigpart b -engine mem -policy local_deletion -port %d" % (ctx.seed, pbase + 3 * len(jobs))))
+        if not quick:
+            jobs.append(("big-c", "-seed %d -n 1 -big -engine pebble -policy wait_compact -port %d" % (ctx.seed, pbase + 3 * len(jobs))))
     if not ctx.replay:
         # length sweep: values / members / keys of the size constants of the write path +-32 bytes, for every
         # write command; quick: constants up to 1 MiB in 4 slices, thorough: all of them, all positions
